@@ -34,7 +34,7 @@ Encodings(n) ==
 Rep(s, c) == [k \in 1 .. c |-> s]
 \* again: after the stream reported EOF the handler reads on (ReadAll followed by a drain, a retrying reader ...):
 \* every further read must report EOF again at once, without bytes
-P(reads, all) == [reads |-> reads, all |-> all, again |-> IF all \/ Len(reads) % 2 = 1 THEN 2 ELSE 0]
+P(reads, all) == [reads |-> reads, all |-> all, again |-> IF all \/ Len(reads) % 2 = 1 THEN 2 ELSE 0, body |-> FALSE]
 
 \* consumption programs for a body of length n
 Programs(n) ==
@@ -98,7 +98,8 @@ TmoScripts == << <<Probe, TmoUp("chunked", 26, <<10, 11, 5>>), Probe>>,
                  <<ProbeChunked, TmoUp("chunked", 12000, <<6000, 6000>>), Probe>> >>
 TmoAt(j, d) == Offsets(TmoScripts[j])[2].headEnd + d
 TmoPlan == << <<1, 7>>, <<1, 20>>, <<2, 9000>>, <<2, 15000>>, <<3, 100>>, <<3, 7000>> >>
-TmoProgs == << P(<<4096>>, TRUE), P(<<3>>, FALSE), P(<<4096, 4096, 4096>>, FALSE) >>
+\* (the last program takes the whole body with Request.BodyE() instead of reading the stream)
+TmoProgs == << P(<<4096>>, TRUE), P(<<3>>, FALSE), P(<<4096, 4096, 4096>>, FALSE), [P(<< >>, FALSE) EXCEPT !.body = TRUE] >>
 TmoCase(j) == LET pl == TmoPlan[((j - 1) % Len(TmoPlan)) + 1] pr == TmoProgs[((j - 1) \div Len(TmoPlan)) + 1] IN
               [id |-> Len(AllSeq) + Len(SmugCases) + Len(MpCases) + j, script |-> TmoScripts[pl[1]], wire |-> Encode(TmoScripts[pl[1]]),
                offs |-> Offsets(TmoScripts[pl[1]]), progs |-> <<P(<<4096>>, TRUE), pr, P(<<4096>>, TRUE)>>,
